@@ -333,3 +333,51 @@ Definition term_start (h : list (list N)) : term := mkTerm [] 0 0 h (length h).
 (** The line the prompt shows (get_current without its panics). *)
 Definition current (t : term) : list N :=
   if t_idx t <? length (t_hist t) then nth (t_idx t) (t_hist t) [] else t_buf t.
+
+(** An editor state of the SPEC as the terminal holds it between two lines (`cursor`, the byte
+    index of the next command, is 0 there). *)
+Definition term_of_ed (e : ed) : term := mkTerm (draft e) 0 (cur e) (hist e) (focus e).
+
+(* ------------------------------------------------------------------ *)
+(** * find_word_next as it was in the pinned tree (before the two `fix:` commits)
+
+    It iterated `string.char_indices().skip(cursor)`, so the indices it returned were BYTE
+    offsets (and `string.len()` at the end), although its result is stored in visible_cursor;
+    and after a word followed only by spaces it fell through to the word/punctuation test with
+    the first space still in hand.  Kept for the refutation lemmas in EditProofs.v. *)
+Section Pinned.
+Variable is_ws : N -> bool.
+Variable is_alnum : N -> bool.
+
+Fixpoint fwn_skip_ws_pinned (chars : list N) (j : nat) : option nat :=
+  match chars with
+  | [] => None
+  | ch :: r => if negb (is_ws ch) then Some j else fwn_skip_ws_pinned r (j + len_utf8 ch)
+  end.
+
+Fixpoint fwn_loop_pinned (full_word alnum : bool) (chars : list N) (j len : nat) : nat :=
+  match chars with
+  | [] => len
+  | ch :: r =>
+      if is_ws ch then
+        match fwn_skip_ws_pinned r (j + len_utf8 ch) with
+        | Some k => k
+        | None => if negb full_word && negb (eqb (is_alnum ch) alnum) then j else len
+        end
+      else if negb full_word && negb (eqb (is_alnum ch) alnum) then j
+      else fwn_loop_pinned full_word alnum r (j + len_utf8 ch) len
+  end.
+
+Definition find_word_next_pinned (s : list N) (cursor : nat) (full_word : bool) : nat :=
+  match skipn cursor s with
+  | [] => byte_len s
+  | first :: chars =>
+      let j := byte_len (firstn cursor s) + len_utf8 first in
+      if is_ws first then
+        match fwn_skip_ws_pinned chars j with
+        | Some k => k
+        | None => byte_len s
+        end
+      else fwn_loop_pinned full_word (is_alnum first) chars j (byte_len s)
+  end.
+End Pinned.
